@@ -434,7 +434,7 @@ def run_shard(ctx):
             ms = rng.sample(cl, 2) if rng.random() < 0.7 else [cl[0], cl[0]]
             ctx.guarded(cli_check, ctx, lib, ms, ctx.cases, timeout=120)
     # (b2) package libraries (constants, functions, imports)
-    for lib in package_libs(ctx.subrng("pkg"), ctx.n(200, 6000)):
+    for lib in package_libs(ctx.subrng("pkg"), ctx.n(500, 6000)):
         if ctx.out_of_time():
             break
         cl = lib.classes
@@ -444,7 +444,7 @@ def run_shard(ctx):
         for t in lib.tags:
             ctx.cover("pkg:" + t)
     # (b3) feature libraries (name clashes, redeclaration, extends chains, deep modifications)
-    for lib in feature_libs(ctx.subrng("feat"), ctx.n(200, 6000)):
+    for lib in feature_libs(ctx.subrng("feat"), ctx.n(500, 6000)):
         if ctx.out_of_time():
             break
         cl = lib.classes
